@@ -783,6 +783,11 @@ impl PGen {
                 let l = 1 + r.below(2);
                 let cnt = if r.chance(1, 2) { format!("{}", r.range(0, 3)) } else { "⌵".to_string() };
                 format!("⍥({}) {cnt}", self.body(r, depth - 1, l))
+            } else if k < 74 {
+                // iteration over scalars: the operand runs once (rows, each, table) or not at all (reduce)
+                let m = *r.pick(&["≡", "≡", "∵", "⊞", "/"]);
+                let l = 1 + r.below(3);
+                format!("{m}({})", self.body(r, depth - 1, l))
             } else if k < 90 {
                 let m = *r.pick(&["⊙", "⋅", "⟜", "⊸", "⤙", "⤚", "◡", "∩", "⍩"]);
                 let l = 1 + r.below(3);
